@@ -27,7 +27,8 @@ CTOR_PREFIX = "<corgi::array::Array as core::convert::From<("
 ENGINE_FN_NAMES = ("backward", "propagate_consumers")
 CELL_WRITES = ("set", "replace", "swap", "take", "update", "get_mut", "as_ptr")
 OPT_VIEWS = ("core::option::Option::<T>::as_ref", "core::option::Option::<T>::as_mut", "core::option::Option::<T>::as_deref",
-             "core::option::Option::<T>::as_deref_mut", "core::option::Option::<&T>::cloned", "core::option::Option::<&T>::copied")
+             "core::option::Option::<T>::as_deref_mut", "core::option::Option::<&T>::cloned", "core::option::Option::<&T>::copied",
+             "core::option::Option::<T>::take")
 
 
 def _is_some(n):
@@ -910,7 +911,10 @@ def r14_default_seed(facts):
         all_nodes.extend(walk_ctx(m.facts.root(b_)))
     for n, ctx in all_nodes:
         k = n.get("k")
-        if k == "Match" and var_of(n["scrutinee"]) == m.seedv and peel(n["scrutinee"]).get("k") in ("VarRef", "UpvarRef"):
+        scr_ = peel(n["scrutinee"]) if k == "Match" else None
+        while isinstance(scr_, dict) and scr_.get("k") == "Call" and callee(scr_) in OPT_VIEWS and scr_["args"]:
+            scr_ = peel(scr_["args"][0])
+        if k == "Match" and isinstance(scr_, dict) and scr_.get("k") in ("VarRef", "UpvarRef") and scr_["v"] == m.seedv:
             some_open, none_open = True, True     # can a Some / a None scrutinee still reach the next arm?
             for a in n["arms"]:
                 p = a["pat"]
@@ -1130,6 +1134,35 @@ def r25_accumulate_arms(facts):
                     c.bad("%s:%s-arm" % (name, kind), "%s:%d" % (F.rel(bw["file"]), bw["sp"][0]),
                           "no store into the %s slot handles the case where the slot is %s" % (name, "occupied (an existing value would be lost)" if kind == "Some" else "empty"))
     c.floor("slot stores examined", total, 2)
+    # ---- a pass may not end early because a gradient is already held: gradients add up across passes
+    for n, ctx in walk_ctx(m.root):
+        if n.get("k") != "Return":
+            continue
+        conds = []
+        for fr in ctx:
+            if fr[0] in ("if", "after"):
+                conds.append(fr[1]["cond"])
+            elif fr[0] in ("arm", "guard", "after-arm"):
+                conds.append(fr[1]["scrutinee"])
+                if fr[0] in ("arm", "guard") and fr[1]["arms"][fr[2]].get("guard") is not None:
+                    conds.append(fr[1]["arms"][fr[2]]["guard"])
+            elif fr[0] == "logic":
+                conds.append(fr[1]["l"])
+        used = set()
+        for cd in conds:
+            used |= _vars_in(cd)
+        for _ in range(3):
+            for v_ in list(used):
+                bnd_ = m.binds.get(v_)
+                if bnd_ and bnd_[1] is not None:
+                    used |= _vars_in(bnd_[1])
+        srcs = list(conds) + [m.binds[v_][1] for v_ in used if m.binds.get(v_) and m.binds[v_][1] is not None]
+        on_grad = any(x.get("k") == "Field" and x.get("name") == m.f_grad and x.get("adt") == ARRAY for e_ in srcs for x in walk(e_))
+        if on_grad:
+            c.bad("gradient:held-ends-pass", loc(bw, n), "backward returns early under a condition that reads the gradient slot: a pass over a node that already holds a gradient "
+                  "from an earlier pass is cut short, so what this pass should add (there and upstream) is lost")
+        else:
+            c.unk("backward:early-return", loc(bw, n), "backward has an early `return`; whether the slots still accumulate on the inputs that take it is not read")
     return c
 
 
@@ -1682,6 +1715,11 @@ def r10_flag_writers_and_pairing(facts):
 def _zip_sides_plain(m, e, saved, is_children):
     """e contains zip(children-iteration, saved-iteration) (either order) without filtering either side first.
     -> position of the flag in the tuple (0/1) or None"""
+    # adaptors between the zip and its consumer that select by POSITION (take, skip, step_by, ..) break the pairing for the operands they drop
+    for x in walk(e):
+        if x.get("k") == "Call" and callee(x) in (IT + "take", IT + "skip", IT + "step_by", IT + "take_while", IT + "skip_while", IT + "nth", IT + "last") \
+                and any(y.get("k") == "Call" and callee(y) == IT + "zip" for y in walk(x["args"][0])):
+            return None
     for x in walk(e):
         if x.get("k") == "Call" and callee(x) == IT + "zip":
             a, b = x["args"][0], x["args"][1]
@@ -1768,9 +1806,8 @@ def r23_engine_state_layering(facts):
     c.floor("engine bodies", len(eng), 2)
     E = engine_set(facts)
     clone_def = debug_def = None
+    clone_def = (F.clone_body(facts.base if hasattr(facts, "base") else facts) or {}).get("def")
     for x in facts.fns():
-        if x.get("impl_self") == ARRAY and x.get("impl_trait_def") == "core::clone::Clone" and x.get("name") == "clone":
-            clone_def = x["def"]
         if x.get("impl_self") == ARRAY and x.get("impl_trait_def") == "core::fmt::Debug":
             debug_def = x["def"]
     gfield = (roles.get("gradient") or [None])[0]
